@@ -319,6 +319,28 @@ def vReduceMeanAxes (g : DG) (o : DOp) : Option Fus :=
       else none
     | none => none
 
+/-- `TransposeFusion`: a Transpose (with its one input present) feeding any input position of
+MatMul / FusedMatMul / Concat / Expand / Slice / Split is folded into a `TransformInputs(<op>)`
+wrapper that permutes that input's view; no restriction on `perm` (absent = reverse the axes).
+Attributes `tr<i>` = permutation applied to input `i` (`[-1]` = reverse). -/
+def vTranspose (g : DG) (o : DOp) : Option Fus :=
+  if !["MatMul", "FusedMatMul", "Concat", "Expand", "Slice", "Split"].contains o.ty then none
+  else
+    let idx := (List.range o.ins.length).zip o.ins
+    let tr : List (Nat × Option Nat × Option (List Int)) := idx.map fun (i, inp) =>
+      match inp.bind g.source with
+      | some so =>
+        if so.ty == "Transpose" then
+          match so.ins with
+          | [ti] => (i, ti, some ((so.attr "perm").getD [-1]))
+          | _ => (i, inp, none)
+        else (i, inp, none)
+      | none => (i, inp, none)
+    if tr.all (fun t => t.2.2.isNone) then none
+    else
+      let attrs := tr.filterMap fun (i, _, p) => p.map fun perm => ("tr" ++ toString i, perm)
+      some (Fus.op ("TransformInputs(" ++ o.ty ++ ")") attrs (tr.map (·.2.1)) o.outs [])
+
 def visitorsMain : List (DG → DOp → Option Fus) :=
   [ vIdentity,
     fun g o => patFusion g o reciprocalPat "Reciprocal" ["x"] fun _ => some [],
@@ -338,7 +360,8 @@ def visitorsMain : List (DG → DOp → Option Fus) :=
       | some sm =>
         -- the fused operator inherits `flush_nans_to_zero` from the Softmax it replaces
         if lastAxis g sm softmaxAxis then some [("flush", [((g.op? sm).map fun so => attr1 so "flush" 0).getD 0])] else none
-      | none => none ]
+      | none => none,
+    vTranspose ]
 
 /-! ## apply_fusion -/
 
@@ -447,7 +470,7 @@ def applyFusions (g : DG) (visitors : List (DG → DOp → Option Fus)) : DG × 
 
 def knownTypes : List String :=
   ["Add", "Sub", "Mul", "Div", "Identity", "Cast", "Neg", "Abs", "Relu", "Sigmoid", "Erf", "Tanh", "Pow", "Sqrt",
-   "Reciprocal", "ReduceMean", "Softmax", "IsNaN", "Where", "MatMul", "If"]
+   "Reciprocal", "ReduceMean", "Softmax", "IsNaN", "Where", "MatMul", "If", "Transpose", "Concat", "Expand", "Slice", "Split"]
 
 def isConstV (g : DG) (v : Nat) : Bool := g.consts.any (·.id == v)
 
@@ -481,6 +504,10 @@ def attrText (o : DOp) : String :=
   else if o.ty == "Softmax" then
     "{axis=" ++ toString (attr1 o "axis" (-1)) ++ ",flush=" ++ toString (attr1 o "flush" 0) ++ "}"
   else if o.ty == "AddSoftmax" then "{flush=" ++ toString (attr1 o "flush" 0) ++ "}"
+  else if o.ty.startsWith "TransformInputs(" then
+    let parts := (o.attrs.filter fun kv => kv.1.startsWith "tr").map fun (k, perm) =>
+      (k.drop 2).toString ++ ":" ++ (if perm == [-1] then "rev" else ".".intercalate (perm.map toString))
+    "{" ++ ";".intercalate parts ++ "}"
   else ""
 
 def term (g : DG) : Nat → Nat → String
